@@ -5,6 +5,7 @@ package main
 import (
 	"fmt"
 	"go/token"
+	"go/types"
 	"sort"
 	"strings"
 
@@ -14,7 +15,7 @@ import (
 func init() {
 	register("C07",
 		"that DAYS_OF_MONTH and the leap rules are the right calendar beyond the literal table; which lunar (year, month, day) triples are images of civil days (numeric in the month table).",
-		r07_1, r07_2, r07_3, r07_4, r04_2, r17_1, r17_5, r17_6, r06_1, r04_9, r04_8)
+		r07_1, r07_2, r07_3, r07_4, r07_5, r04_2, r17_1, r17_5, r17_6, r06_1, r04_9, r04_8)
 }
 
 func r07_1(c *Ctx, r *Report) {
@@ -331,4 +332,57 @@ func (c *Ctx) builderParam(fn *ssa.Function, idx int, seen map[string]bool) bool
 		}
 	}
 	return sites > 0
+}
+
+func r07_5(c *Ctx, r *Report) {
+	const rule = "R07.5"
+	r.rule(rule, "No field is read that nobody stores. Every field of a library struct that some library function loads is stored by at least one function (its constructor, a builder or a Set* mutator; the stores of a composite literal count): a field that is read but never stored silently holds its zero value in every object — the direction of a fortune chart that was dropped from a constructor reads as 'backward' for everyone.")
+	stored := map[string]bool{}
+	loaded := map[string]token.Pos{}
+	for _, fn := range c.Funcs {
+		for _, b := range fn.Blocks {
+			for _, ins := range b.Instrs {
+				switch x := ins.(type) {
+				case *ssa.Store:
+					if fa, ok := x.Addr.(*ssa.FieldAddr); ok {
+						stored[fieldKeyOf(fa)] = true
+					}
+					// a whole struct stored at once initialises all its fields
+					if st, ok := x.Val.Type().Underlying().(*types.Struct); ok {
+						if nt, ok := x.Val.Type().(*types.Named); ok {
+							for i := 0; i < st.NumFields(); i++ {
+								stored[nt.Obj().Name()+"."+fieldName(nt, i)] = true
+							}
+						}
+					}
+				case *ssa.UnOp:
+					if fa, ok := x.X.(*ssa.FieldAddr); ok && x.Op == token.MUL {
+						if pt, ok := fa.X.Type().Underlying().(*types.Pointer); ok {
+							if nt, ok := pt.Elem().(*types.Named); !ok || nt.Obj().Pkg() == nil || !strings.HasPrefix(nt.Obj().Pkg().Path(), c.ModPath) {
+								continue // a struct of another package
+							}
+						}
+						if _, seen := loaded[fieldKeyOf(fa)]; !seen {
+							loaded[fieldKeyOf(fa)] = x.Pos()
+						}
+					}
+				}
+			}
+		}
+	}
+	n := 0
+	var keys []string
+	for k := range loaded {
+		keys = append(keys, k)
+	}
+	sort.Strings(keys)
+	for _, k := range keys {
+		if strings.HasPrefix(k, "Mutex.") || strings.HasPrefix(k, "Once.") || !strings.Contains(k, ".") {
+			continue
+		}
+		n++
+		r.check(stored[k], rule, "field "+k+" is stored by some function", c.pos(loaded[k]), "loaded here, stored nowhere in the library: every object carries the zero value")
+	}
+	r.floor(rule, 100)
+	_ = n
 }
